@@ -527,6 +527,7 @@ type Contract struct {
 	ByRef      bool // opaque: pointer arguments are used by identity (their pointees are immutable)
 	Atomic     string
 	Implements []string
+	ImplExcept map[string]bool // "<iface contract>.<label>" clauses this implementation does not claim
 	Notes      []string
 }
 
@@ -919,7 +920,22 @@ func ParseSpecFile(path, pkg string) (*SpecFile, error) {
 			case "atomic":
 				cur.Atomic = rest
 			case "implements":
-				cur.Implements = append(cur.Implements, strings.Fields(rest)...)
+				// implements <iface contract> [except <label> <label> ...]: the excepted interface clauses are not
+				// claimed for this implementation (recorded, and listed in the evidence as not covered)
+				fl := strings.Fields(rest)
+				for i, w := range fl {
+					if w == "except" {
+						if cur.ImplExcept == nil {
+							cur.ImplExcept = map[string]bool{}
+						}
+						for _, l := range fl[i+1:] {
+							cur.ImplExcept[fl[0]+"."+strings.Trim(l, "[],")] = true
+						}
+						fl = fl[:i]
+						break
+					}
+				}
+				cur.Implements = append(cur.Implements, fl...)
 			case "note":
 				cur.Notes = append(cur.Notes, rest)
 			default:
